@@ -228,6 +228,22 @@ fn grid_sweep(cases: &[Case], c_ans: &[Option<String>], py_ans: &[J], sh: &util:
                 }
             }
         }
+        // the (key) mapping form renders exactly like the positional form
+        if let (Some(v), Some(_)) = (&c.val, c.width) {
+            if matches!(c.conv, 's' | 'c' | 'd' | 'f' | 'x' | 'e' | 'g') {
+                let mfmt = format!("%(k){}", &c.fmt[1..]);
+                let msrc = format!("{} % {{k: {}}}", escape_str(&mfmt), v.src());
+                let mo = eval(&mut p, &msrc);
+                rep.evaluations += 1;
+                let mgot = out_string(&mo);
+                if let Outcome::Panic(m) = &mo {
+                    rep.violation(format!("C19/panic/{}", util::panic_site(m)), format!("`{msrc}`: {m}"), json!({"type":"format","source":msrc}));
+                } else if mgot != got {
+                    let sig = if mgot.as_ref().zip(c.width).is_some_and(|(g, w)| g.chars().count() < w) { "C19/field-shorter-than-width" } else { "C19/mapping-form-differs-from-positional" };
+                    rep.violation(sig, format!("`{msrc}` renders {:?} but the positional form `{src}` renders {:?}", mgot, got), json!({"type":"format","source":msrc}));
+                }
+            }
+        }
         rep.distinct(&(c.conv, c.fmt.len(), c.width, coincide));
         if i % 20_011 == 0 {
             rep.sample(json!({"expr": src, "implementation": got, "c": cc, "python": py}));
